@@ -37,13 +37,16 @@ class AbstractDenseTimeOnlineInterpreter(AbstractOnlineInterpreter, DenseTimeInt
 
         self.ast.results = self.updateVisitor.results
 
+        # when the output variable is also an input signal, its entry holds the samples of this update, not an object
+        out_is_input = self.ast.out_var in self.ast.free_vars
         out = self.ast.var_object_dict[self.ast.out_var]
-        if self.ast.out_var_field:
+        if self.ast.out_var_field and not out_is_input:
             setattr(out, self.ast.out_var_field, rob)
 
         self.ast.var_object_dict = self.ast.var_object_dict.fromkeys(self.ast.var_object_dict, [])  #TODO I did not understand it.
         # (the input buffers are emptied; the object that carries the output field must survive)
-        self.ast.var_object_dict[self.ast.out_var] = out
+        if not out_is_input:
+            self.ast.var_object_dict[self.ast.out_var] = out
 
         return rob
 
